@@ -134,7 +134,7 @@ def rule_inputs(ctx):
     cm = prog.one('Block::compute_merkle_root')
     ctx.touch(cm)
     ctx.check('inputs', 'leaves=all-txs-forward', canon(cm.ret_expr()) == 'merkle_root(collect(map(self.txs, closure:{closure#0})))', cm, canon(cm.ret_expr()))
-    cl = prog.one('Block::compute_merkle_root::{closure#0}')
+    cl = util.only_closure(prog, cm)
     ctx.touch(cl)
     ctx.check('inputs', 'leaf=tx.hash', canon(cl.ret_expr()) == 'a2.hash', cl, 'closure returns %s' % canon(cl.ret_expr()))
     bad = [c for c in cm.calls if mir.method_name(c.name) in ('rev', 'skip', 'take', 'filter', 'step_by', 'par_iter')]
@@ -181,41 +181,83 @@ def rule_inputs(ctx):
     ctx.check('inputs', 'prev-oracle=index[height-1]', len(pv) == 1 and [canon(x) for x in v.arg_exprs(pv[0])] == ['self.chain_index', '(a3 - 1)'], v, 'chain_index.get(height - 1)')
 
 
+def _cur(s):
+    """replace every `phi(a1 | ..loop-carried..)` (the current level) by CUR"""
+    out = ''
+    i = 0
+    while True:
+        j = s.find('phi(a1 | ', i)
+        if j < 0:
+            return out + s[i:]
+        depth = 0
+        k = j + 3
+        while k < len(s):
+            if s[k] == '(':
+                depth += 1
+            elif s[k] == ')':
+                depth -= 1
+                if depth == 0:
+                    break
+            k += 1
+        out += s[i:j] + 'CUR'
+        i = k + 1
+
+
 def rule_merkle(ctx):
     """shape of utils::merkle_root = the reference algorithm (idiom match; the arithmetic itself is trusted):
-    while more than one hash: pair up left||right, duplicate the last one on odd levels; result = the single hash"""
+    while more than one hash: pair up left||right, duplicate the last one on odd levels; result = the single hash.
+    Accepted spellings of a level: chunks(2) filtered to full pairs, or chunks_exact(2); of the odd element: last()
+    under len % 2 == 1, or the one-element remainder of chunks_exact."""
     prog = ctx.prog
     m = prog.one('utils::merkle_root')
-    c0 = prog.one('utils::merkle_root::{closure#0}')
-    c1 = prog.one('utils::merkle_root::{closure#1}')
-    ctx.touch(m, c0, c1)
-    level = 'collect(map(filter(chunks(phi(a1 | loopvar), 2), closure:{closure#0}), closure:{closure#1}))'
-    cur = 'phi(a1 | collect(map(filter(chunks(loopvar, 2), closure:{closure#0}), closure:{closure#1})))'
+    ctx.touch(m)
     defs = {}
     for l, ds in m.defs().items():
         if m.names.get(l) == 'hashes':
             for d in ds:
                 v = m.rvalue_expr(d[3]) if d[0] == 'assign' else m.call_expr(d[2])
-                defs[canon(v)] = (m.loop_depth(d[1]), util.guards_at(m, d[1]))
-    ctx.check('merkle', 'level=pairs-of-current-level', set(defs) == {'a1', level} and defs.get(level, (0,))[0] == 1, m, 'hashes := %s' % sorted(defs))
-    ctx.check('merkle', 'pair-filter=full-pairs-only', canon(c0.ret_expr()) == '(len(a2) == 2)', c0, 'filter keeps chunks of length 2')
+                defs[_cur(canon(v))] = (m.loop_depth(d[1]), util.guards_at(m, d[1]))
+    lv = [k for k in defs if k != 'a1']
+    ma = re.match(r'^collect\(map\(filter\(chunks\(CUR, 2\), closure:(\{closure#\d+\})\), closure:(\{closure#\d+\})\)\)$', lv[0]) if len(lv) == 1 else None
+    mb = re.match(r'^collect\(map\(chunks_exact\(CUR, 2\), closure:(\{closure#\d+\})\)\)$', lv[0]) if len(lv) == 1 else None
+    ctx.check('merkle', 'level=pairs-of-current-level', bool(ma or mb) and set(defs) == {'a1', lv[0]} and defs[lv[0]][0] == 1, m, 'hashes := %s' % sorted(defs))
+    if not (ma or mb):
+        raise Unrecognised('merkle', 'level construction not recognised: %s' % sorted(defs))
+    if ma:
+        c0 = prog.one('utils::merkle_root::' + ma.group(1))
+        c1 = prog.one('utils::merkle_root::' + ma.group(2))
+        ctx.touch(c0)
+        ctx.check('merkle', 'pair-filter=full-pairs-only', canon(c0.ret_expr()) == '(len(a2) == 2)', c0, 'filter keeps chunks of length 2')
+    else:
+        c1 = prog.one('utils::merkle_root::' + mb.group(1))
+        ctx.ok('merkle', 'pair-filter=full-pairs-only', m, 'chunks_exact(2) yields full pairs only')
+    ctx.touch(c1)
     ctx.check('merkle', 'pair-hash=sha256d(left||right)', canon(c1.ret_expr()) == 'hash(concat([a2[0], a2[1]]))', c1, 'pair hash = %s' % canon(c1.ret_expr()),
               bad_detail='pair hash = %s; the Bitcoin merkle node is sha256d(left || right)' % canon(c1.ret_expr()))
     h1 = [c for c in c1.calls if mir.method_name(c.name) == 'hash']
     ctx.check('merkle', 'pair-hash-is-sha256d', len(h1) == 1 and 'sha256d::Hash' in h1[0].rfull, c1, h1[0].rfull if h1 else '?')
-    # odd level: push(hash(last || last)) under len % 2 == 1
+    # odd level: push(hash(last || last)) exactly when the level has an odd number of hashes
     pu = [c for c in m.calls if mir.method_name(c.name) == 'push']
-    last = 'unwrap(last(%s))[RangeFull::RangeFull{}]' % cur
-    okp = len(pu) == 1 and canon(m.op_expr(pu[0].args[1])) == 'hash(concat([%s, %s]))' % (last, last) and \
-        sorted(util.guards_at(m, pu[0].bb)) == sorted(['(len(%s) %% 2) == 1' % cur, '1 < len(%s)' % cur]) and canon(m.op_expr(pu[0].args[0])) == level
+    okp = False
+    if len(pu) == 1:
+        arg = _cur(canon(m.op_expr(pu[0].args[1])))
+        g = sorted(_cur(x) for x in util.guards_at(m, pu[0].bb))
+        tgt = _cur(canon(m.op_expr(pu[0].args[0])))
+        la = 'unwrap(last(CUR))[RangeFull::RangeFull{}]'
+        lb = 'remainder(chunks_exact(CUR, 2))[0][RangeFull::RangeFull{}]'
+        if arg == 'hash(concat([%s, %s]))' % (la, la):
+            okp = g == sorted(['(len(CUR) % 2) == 1', '1 < len(CUR)'])
+        elif arg == 'hash(concat([%s, %s]))' % (lb, lb) and mb:
+            okp = g == sorted(['PtrMetadata(remainder(chunks_exact(CUR, 2))) == 1', '1 < len(CUR)']) or g == sorted(['len(remainder(chunks_exact(CUR, 2))) == 1', '1 < len(CUR)'])
+        okp = okp and tgt == lv[0]
     ctx.check('merkle', 'odd-level-duplicates-last', okp, pu[0] if pu else m, 'odd level: push(sha256d(last || last)) onto the new level',
               bad_detail='odd levels are not completed with sha256d(last || last): %s under %s' % ([canon(m.op_expr(c.args[1]))[:120] for c in pu], [util.guards_at(m, c.bb)[:2] for c in pu]))
     # loop condition and result
-    rets = [(canon(m.rvalue_expr(d[3])) if d[0] == 'assign' else canon(m.call_expr(d[2])), util.guards_at(m, d[1])) for d in m.defs().get(0, [])]
-    okr = len(rets) == 1 and rets[0][0].startswith('expect(first(%s)' % cur) and rets[0][1] == ['len(%s) <= 1' % cur]
+    rets = [(_cur(canon(m.rvalue_expr(d[3])) if d[0] == 'assign' else canon(m.call_expr(d[2]))), [_cur(x) for x in util.guards_at(m, d[1])]) for d in m.defs().get(0, [])]
+    okr = len(rets) == 1 and rets[0][0].startswith('expect(first(CUR)') and rets[0][1] == ['len(CUR) <= 1']
     ctx.check('merkle', 'result=single-remaining-hash', okr, m, 'returns first(hashes) once len <= 1')
-    ch = [c for c in m.calls if mir.method_name(c.name) == 'chunks']
-    ctx.check('merkle', 'chunks-of-2-over-current-level', len(ch) == 1 and [canon(a) for a in m.arg_exprs(ch[0])] == [cur, '2'] and '1 < len(%s)' % cur in util.guards_at(m, ch[0].bb), m, 'chunks(2) while len > 1')
+    ch = [c for c in m.calls if mir.method_name(c.name) in ('chunks', 'chunks_exact')]
+    ctx.check('merkle', 'chunks-of-2-over-current-level', len(ch) == 1 and [_cur(canon(a)) for a in m.arg_exprs(ch[0])] == ['CUR', '2'] and '1 < len(CUR)' in [_cur(x) for x in util.guards_at(m, ch[0].bb)], m, 'chunks(2) while len > 1')
     par = [c for c in m.calls + c1.calls if 'rayon' in c.name]
     ctx.check('merkle', 'sequential', not par, m, 'no parallel iterator in the merkle computation')
 
